@@ -65,7 +65,9 @@ REQUIRED_COUNTERS = ['histories_checked', 'trial_boundary_faults',
                      'restarts_completed', 'ids_checked',
                      'distinct_line_locations_hit',
                      'near_miss_growth_histories',
-                     'rounds_with_numpy_or_retyped_numbers']
+                     'rounds_with_numpy_or_retyped_numbers',
+                     'histories_through_run_file_with_log',
+                     'growth_after_completion_histories']
 SHARD_TIMEOUT = {'quick': 1200, 'thorough': 5400}
 BINS_PER_CPU = 4
 
@@ -248,7 +250,8 @@ def run_history(out, hist, tag):
                         if kk in r} for r in hist['rounds']],
             'final': {kk: hist['final'][kk] for kk in ('target', 'sf',
                                                        'nsims', 'types')
-                      if kk in hist['final']}}
+                      if kk in hist['final']},
+            'via_run_file': bool(hist.get('via_run_file'))}
     mech = f"history/{hist['fmt']}"
     snap_dirs = []
     foreign = set()
@@ -262,7 +265,8 @@ def run_history(out, hist, tag):
                                inc, snap_dir=sd,
                                stop_after_trials=r.get('stop_after'),
                                stop_kind=r.get('kind', 'kill'),
-                               spec_types=r.get('types'))
+                               spec_types=r.get('types'),
+                               via_run_file=bool(hist.get('via_run_file')))
             if r.get('types'):
                 out.count('rounds_with_numpy_or_retyped_numbers')
             inc += 1
@@ -283,7 +287,10 @@ def run_history(out, hist, tag):
         sd = wd.path('snapF')
         last = latest_snapshot(snap_dirs)
         info = V.run_round(f['spec'], out_file, f['target'], f['sf'], inc,
-                           snap_dir=sd, spec_types=f.get('types'))
+                           snap_dir=sd, spec_types=f.get('types'),
+                           via_run_file=bool(hist.get('via_run_file')))
+        if hist.get('via_run_file'):
+            out.count('histories_through_run_file_with_log')
         if info['status'] != 'completed':
             out.violation(f'{mech}/restart-raised',
                           f"the restarted run ended with {info['status']}: "
@@ -361,6 +368,34 @@ def near_miss_histories():
     return hs
 
 
+def growth_after_completion_histories():
+    """A run reaches its target; then the specification grows (a size, a
+    rate or a noise model is appended) and is run again on the same files,
+    with the same or a larger target -- through BatchSimulation directly and
+    through run_file with its progress log."""
+    hs = []
+    for fmt in ('json', 'gz'):
+        for via in (False, True):
+            for tracer in (True, False):
+                mk = V.tracer_spec if tracer else V.real_spec
+                sz = [(2, 2, 2)] if tracer else [(3, 3)]
+                sz2 = sz + ([(2, 2, 3)] if tracer else [(3, 4)])
+                grown = [(mk([0.1, 0.2], sizes=tuple(sz)), 2,
+                          mk([0.1, 0.2, 0.3], sizes=tuple(sz)), 3),
+                         (mk([0.1], sizes=tuple(sz)), 1,
+                          mk([0.1], sizes=tuple(sz2)), 2)]
+                for s1, n1, s2, n2 in grown:
+                    for t1, t2 in ((4, 4), (3, 5)):
+                        hs.append({'fmt': fmt, 'tracer': tracer,
+                                   'via_run_file': via, 'rounds': [
+                            {'spec': s1, 'target': t1, 'sf': 1,
+                             'stop_after': 10 ** 6, 'kind': 'kill',
+                             'nsims': n1}],
+                            'final': {'spec': s2, 'target': t2, 'sf': 1,
+                                      'nsims': n2}})
+    return hs
+
+
 def random_histories(rng, n, tier):
     hs = []
     for _ in range(n):
@@ -410,6 +445,8 @@ def random_histories(rng, n, tier):
                                  not in sizes else [])
         spec = mk(list(rates), sizes=tuple(sizes))
         hs.append({'fmt': fmt, 'tracer': tracer, 'rounds': rounds,
+                   'via_run_file': bool(all(t is None for t in tmode)
+                                        and rng.random() < 0.35),
                    'final': {'spec': spec, 'target': target,
                              'sf': int(rng.choice([1, 2, 3, 7])),
                              'nsims': len(rates) * len(sizes),
@@ -673,6 +710,9 @@ def run_task(task, out):
         for h in near_miss_histories():
             run_history(out, h, 'near-miss-growth')
         out.count('near_miss_growth_histories')
+        for h in growth_after_completion_histories():
+            run_history(out, h, 'growth-after-completion')
+            out.count('growth_after_completion_histories')
     elif k == 'random':
         rng = np.random.default_rng([task['seed'], 1213, task['i']])
         for h in random_histories(rng, task['n'], task['tier']):
